@@ -99,7 +99,7 @@ def generate(prop, rng, tier):
         spec = {"kind": "gscv", "forecaster": dict(base, strategy="last", sp=1, window_length=None),
                 "cv": {"type": "sliding", "window": rng.choice([4, 5, 6]), "step": rng.choice([1, 2, 3]),
                        "fh": [1, 2]},
-                "grid": {"strategy": ["last", "mean", "drift"], "window_length": [3, 4]},
+                "grid": {"strategy": ["last", "mean", "drift"], "window_length": rng.choice([[3, 4], [None, 4]])},
                 "n_jobs": rng.choice([None, 2, 3]), "refit": True}
     if prop == "C10" and rng.random() < 0.06:
         # pipelines whose transformers keep what they learnt in fit (seasonal components
@@ -1050,7 +1050,27 @@ class Engine:
         if not isinstance(p, pd.Series):
             return
         fhs = {"steps": steps, "abs": False}
-        if self.refit_clean and self.updates_since_fit > 0 and C.refits_on_update(self.spec):
+        if self.spec["kind"] == "gscv" and self.refit_clean and self.updates_since_fit > 0 \
+                and C.refits_on_update(self.spec["forecaster"]):
+            # a tuned forecaster: after updates that refit, the forecasts are those of a fresh
+            # forecaster with the SAME best parameters fitted on everything seen
+            with peers.paused():
+                try:
+                    from sklearn.base import clone as _clone
+                    twin = _clone(a.f.best_forecaster_)
+                    fit_fh = _mk_fh(self.fit_fh, None, a.kind) if self.fit_fh else None
+                    twin.fit(a.seen_series(), fh=fit_fh)
+                    q = twin.predict(_mk_fh(fhs, None, a.kind))
+                except Exception as e:  # noqa
+                    self.note("twin_raised", type(e).__name__)
+                    return
+            self.res.probe("refit_equivalence_checked")
+            if not C.same_series(p, q):
+                self.v("refit_equivalence",
+                       "tuned forecaster after fit+update(s): predict(%s) gives %s, a fresh forecaster "
+                       "with the same best parameters fitted on all data seen gives %s" % (
+                           steps, C.fmt(p), C.fmt(q)), op="predict", tuned=True)
+        elif self.refit_clean and self.updates_since_fit > 0 and C.refits_on_update(self.spec):
             # fresh forecaster fitted once on everything seen
             with peers.paused():
                 try:
